@@ -446,6 +446,74 @@ fn sources_failing_with_unexpected_eof(ctx: &mut Ctx, ring: &Ring) {
     }
 }
 
+/// the armored entry points that take `DearmorOptions`, with small limits chosen by the caller: the
+/// limit falls on packet boundaries, inside headers and inside bodies of the armored packet stream
+fn limited_dearmor_options(ctx: &mut Ctx) {
+    use pgp::armor::{BlockType, DearmorOptions};
+    use pgp::composed::{Any, CleartextSignedMessage, Deserializable, DetachedSignature, SignedPublicKey};
+    struct Raw(Vec<u8>);
+    impl Serialize for Raw {
+        fn to_writer<W: std::io::Write>(&self, w: &mut W) -> pgp::errors::Result<()> {
+            w.write_all(&self.0)?;
+            Ok(())
+        }
+        fn write_len(&self) -> usize {
+            self.0.len()
+        }
+    }
+    let site = "armored entry points with DearmorOptions::set_limit";
+    // packet streams: n packets of a given size each (signatures of an unknown version, markers, user ids)
+    let mut streams: Vec<(String, Vec<u8>)> = Vec::new();
+    for (tag, first) in [(2u8, 9u8), (10, b'P'), (13, b'u')] {
+        for size in [2usize, 50, 100] {
+            for n in [1usize, 3, 6] {
+                let mut v = Vec::new();
+                for i in 0..n {
+                    let mut p = vec![0xC0 | tag, (size - 2) as u8];
+                    if size > 2 {
+                        p.push(first);
+                        p.extend(std::iter::repeat(i as u8).take(size - 3));
+                    }
+                    v.extend(p);
+                }
+                streams.push((format!("{n} x tag {tag} of {size} octets"), v));
+            }
+        }
+    }
+    for (what, pk) in &streams {
+        let armor = |typ: BlockType| {
+            let mut out = Vec::new();
+            pgp::armor::write(&Raw(pk.clone()), typ, &mut out, None, true).ok().map(|_| out)
+        };
+        let Some(sig_block) = armor(BlockType::Signature) else { continue };
+        let Some(msg_block) = armor(BlockType::Message) else { continue };
+        let Some(key_block) = armor(BlockType::PublicKey) else { continue };
+        let mut cleartext = b"-----BEGIN PGP SIGNED MESSAGE-----\nHash: SHA256\n\nhello\n".to_vec();
+        cleartext.extend_from_slice(&sig_block);
+        for limit in [0usize, 1, 2, 3, 49, 50, 51, 99, 100, 101, 150, 199, 200, 201, 299, 300, 1000] {
+            let t = Instant::now();
+            let r = guard(|| {
+                let opt = || DearmorOptions::new().set_limit(limit);
+                let mut n = 0usize;
+                n += CleartextSignedMessage::from_armor_buf(&cleartext[..], opt()).is_ok() as usize;
+                n += Any::from_armor_buf_with_options(&cleartext[..], opt()).is_ok() as usize;
+                n += Any::from_armor_buf_with_options(&msg_block[..], opt()).is_ok() as usize;
+                n += Any::from_armor_buf_with_options(&key_block[..], opt()).is_ok() as usize;
+                n += DetachedSignature::from_armor_single_buf_with_options(&sig_block[..], opt()).is_ok() as usize;
+                n += SignedPublicKey::from_armor_single_buf_with_options(&key_block[..], opt()).is_ok() as usize;
+                n += SignedPublicKey::from_armor_many_buf_with_options(&key_block[..], opt()).map(|(it, _)| it.take(8).count()).unwrap_or(0);
+                if let Ok((mut m, _)) = Message::from_armor_with_options(&msg_block[..], opt()) {
+                    let mut out = Vec::new();
+                    n += std::io::Read::read_to_end(&mut m, &mut out).is_ok() as usize;
+                }
+                n
+            });
+            no_panic(ctx, site, &format!("{what}, limit {limit}, packets={}", hx(pk)), &r, t);
+            ctx.stat("limited_dearmor_options");
+        }
+    }
+}
+
 /// multi-octet fields placed across the 8 KiB refill boundary of the packet body reader, in packets
 /// whose declared length ends inside such a field, and the same inputs delivered through readers that
 /// hand out 1..7 octets per `fill_buf`: every `read_be_*` / `read_arr` / `take_bytes` of the parsers
@@ -720,6 +788,7 @@ pub fn run(ctx: &mut Ctx, ring: &Ring) {
     partial_cut_containers(ctx);
     consume_after_failed_fill_buf(ctx);
     sources_failing_with_unexpected_eof(ctx, ring);
+    limited_dearmor_options(ctx);
     tiny_and_octet_sweeps(ctx);
     boundary_straddles(ctx, ring);
     read_after_error(ctx);
